@@ -5,32 +5,32 @@ PENDING_REASON = 'check under construction in this session: no verdict is claime
 DATA = {
     'C01': {
         'technique': "model extraction + path-sensitive abstract interpretation of Generator.visit_*; sibling cross-check against the validator's constraint table; symbolic bound entailment for every draw",
-        'text': "Necessary conditions decided for all reachable prop-sets and all paths: the generator consults every constraint the validator checks (or is provably exempt), every random_int/random_float draw has lo<=hi by structural entailment, grid bounds round inwards, value-first, kind agreement. Not decided: that concrete generated values validate for all RNG outcomes. A declared bound handed out as the value carries every kind the declaration admits for it (kinds read off the declaration's isinstance guards); if the validator demands on-grid floats the generator must return round(_, precision) on every path (GRID).",
+        'text': "Necessary conditions decided for all reachable prop-sets and all paths: the generator consults every constraint the validator checks (or is provably exempt), every random_int/random_float draw has lo<=hi by structural entailment, grid bounds round inwards, value-first, kind agreement. Not decided: that concrete generated values validate for all RNG outcomes. A declared bound handed out as the value carries every kind the declaration admits for it (kinds read off the declaration's isinstance guards); if the validator demands on-grid floats the generator must return round(_, precision) on every path (GRID). The entry function it is stated through is nothing but the dispatch to the module-level visitor (VALIDATE-/GENERATE-/SUBSTITUTE-/REPRESENT-ENTRY). Every draw from a sequence has a non-empty sequence (DRAW-NONEMPTY); a returned props.value was stored unchanged by its producer (PAYLOAD-PINNED); no value is obtained by rounding a continuous draw.",
         'note': "Trusted base: the checker's own resolver and abstract interpreter, the frozen idiom tables listed in DESIGN.md appendix A, and Python semantics as stated in DESIGN.md section 5. Satisfiable-schema axioms ax1-ax5 of DESIGN.md C01.",
     },
     'C02': {
         'technique': 'decision-table extraction from Validator.visit_* by abstract interpretation, compared with a frozen constraint table and between sibling validators',
-        'text': 'Each individual constraint is implemented as specified (type guard first, predicate, operator, error kind) under every prop subset; list-form classification is a partition; Validator/SubstitutorValidator/Substitutor agree on forms and window starts. Not decided: the verdict as a function (window arithmetic, nesting).',
+        'text': 'Each individual constraint is implemented as specified (type guard first, predicate, operator, error kind) under every prop subset; list-form classification is a partition; Validator/SubstitutorValidator/Substitutor agree on forms and window starts. Not decided: the verdict as a function (window arithmetic, nesting). The entry function it is stated through is nothing but the dispatch to the module-level visitor (VALIDATE-/GENERATE-/SUBSTITUTE-/REPRESENT-ENTRY). An accepted refinement stores its argument on every path (DECL-STORES); every present member of a container is dispatched to (MEMBER-VISITED); the result accumulator is exact for every operation sequence of length <= 3.',
         'note': "Trusted base: the checker's own resolver and abstract interpreter, the frozen idiom tables listed in DESIGN.md appendix A, and Python semantics as stated in DESIGN.md section 5. The frozen constraint table is transcribed from the property statement.",
     },
     'C03': {
         'technique': 'typestate (PathHolder ownership) + def-use provenance of error-constructor arguments over all interpreter paths',
-        'text': "Every error construction receives the current path and value; every member descent pairs value[k] with deepcopy(path)[k]; PathHolders are only indexed when owned; error facts are the guard's operands; each error's format() reaches the Formatter method of its class, reads only attributes its __init__ sets, renders error.path and never indexes it in place (abstract evaluation of format() on an instance built from symbolic arguments). Decided for every construction and descent site on every path.",
+        'text': "Every error construction receives the current path and value; every member descent pairs value[k] with deepcopy(path)[k]; PathHolders are only indexed when owned; error facts are the guard's operands; each error's format() reaches the Formatter method of its class, reads only attributes its __init__ sets, renders error.path and never indexes it in place (abstract evaluation of format() on an instance built from symbolic arguments). Decided for every construction and descent site on every path. The entry function it is stated through is nothing but the dispatch to the module-level visitor (VALIDATE-/GENERATE-/SUBSTITUTE-/REPRESENT-ENTRY).",
         'note': "Trusted base: the checker's own resolver and abstract interpreter, the frozen idiom tables listed in DESIGN.md appendix A, and Python semantics as stated in DESIGN.md section 5. th.PathHolder indexing mutates in place (documented dependency behaviour).",
     },
     'C04': {
         'technique': 'abstract interpretation of Substitutor.visit_* on token tables and list shapes (table-transformer laws)',
-        'text': "Pin is the caller's value; every dict key and list position of the original is carried; any() is never left empty; generator and validator honour `value`. Not decided: that the chosen window is the right one on concrete values. A key of the value that a table does not declare is refused (test over all keys on the path, or an extra-key row in the pre-validation of that very table); the conversion contract of from_native (C14 ARM/FINAL) is re-derived here (NATIVE-CONTRACT).",
+        'text': "Pin is the caller's value; every dict key and list position of the original is carried; any() is never left empty; generator and validator honour `value`. Not decided: that the chosen window is the right one on concrete values. A key of the value that a table does not declare is refused (test over all keys on the path, or an extra-key row in the pre-validation of that very table); the conversion contract of from_native (C14 ARM/FINAL) is re-derived here (NATIVE-CONTRACT). The entry function it is stated through is nothing but the dispatch to the module-level visitor (VALIDATE-/GENERATE-/SUBSTITUTE-/REPRESENT-ENTRY).",
         'note': "Trusted base: the checker's own resolver and abstract interpreter, the frozen idiom tables listed in DESIGN.md appendix A, and Python semantics as stated in DESIGN.md section 5. ",
     },
     'C05': {
         'technique': 'dominance (validate-first) + allowed-update-keys + monotonicity analysis; widening-mechanism rules W1-W4 on token tables',
-        'text': 'Absence of the four widening mechanisms (scalar: neither validated-first nor carried+monotone; dict: required key lost/made optional/relaxed marker introduced; list: unpinned position with lengths dropped; any: foreign alternative). Not decided: the set inclusion on concrete values. An empty closed key table accepts only {}: keys added to it are widening unless the pre-validation reports them.',
+        'text': 'Absence of the four widening mechanisms (scalar: neither validated-first nor carried+monotone; dict: required key lost/made optional/relaxed marker introduced; list: unpinned position with lengths dropped; any: foreign alternative). Not decided: the set inclusion on concrete values. An empty closed key table accepts only {}: keys added to it are widening unless the pre-validation reports them. The entry function it is stated through is nothing but the dispatch to the module-level visitor (VALIDATE-/GENERATE-/SUBSTITUTE-/REPRESENT-ENTRY).',
         'note': "Trusted base: the checker's own resolver and abstract interpreter, the frozen idiom tables listed in DESIGN.md appendix A, and Python semantics as stated in DESIGN.md section 5. ",
     },
     'C06': {
         'technique': 'emission simulation: Representor.visit_* abstractly interpreted per reachable state, the emitted call chain replayed on the extracted declaration automaton',
-        'text': 'For every type and reachable prop-set the emitted DSL text re-declares exactly the set props, in an order the DSL accepts, with the right argument shapes; members rendered only through __accept__; no hash-order dependence. Not decided: equality of concrete rebuilt schemas, non-finite floats.',
+        'text': 'For every type and reachable prop-set the emitted DSL text re-declares exactly the set props, in an order the DSL accepts, with the right argument shapes; members rendered only through __accept__; no hash-order dependence. Not decided: equality of concrete rebuilt schemas, non-finite floats. The entry function it is stated through is nothing but the dispatch to the module-level visitor (VALIDATE-/GENERATE-/SUBSTITUTE-/REPRESENT-ENTRY). Rendering is pure: nothing is remembered on the schema, the visitor or a module global (REPR-PURE; program-defined decorators are applied).',
         'note': "Trusted base: the checker's own resolver and abstract interpreter, the frozen idiom tables listed in DESIGN.md appendix A, and Python semantics as stated in DESIGN.md section 5. eval(repr(x)) == x for scalar payload kinds.",
     },
     'C07': {
@@ -40,62 +40,62 @@ DATA = {
     },
     'C08': {
         'technique': 'exception-effect analysis with guard dominance over Validator.visit_*, Formatter.format_* and validate_or_fail',
-        'text': 'Every operation on a validated value is total for the guarded kind (partial-operation table), formatter exhaustive and total on the kinds each error is built with, validate_or_fail shape. Rendering: str()/repr() of a value-derived error field whose kind can hold an unbounded int is partial (ValueError beyond sys.get_int_max_str_digits()) and must be handled (RENDER-TOTAL); format specs are partial operations.',
+        'text': 'Every operation on a validated value is total for the guarded kind (partial-operation table), formatter exhaustive and total on the kinds each error is built with, validate_or_fail shape. Rendering: str()/repr() of a value-derived error field whose kind can hold an unbounded int is partial (ValueError beyond sys.get_int_max_str_digits()) and must be handled (RENDER-TOTAL); format specs are partial operations. The entry function it is stated through is nothing but the dispatch to the module-level visitor (VALIDATE-/GENERATE-/SUBSTITUTE-/REPRESENT-ENTRY). has_errors() iff get_errors() is non-empty for every accumulator sequence (RESULT-ACC).',
         'note': "Trusted base: the checker's own resolver and abstract interpreter, the frozen idiom tables listed in DESIGN.md appendix A, and Python semantics as stated in DESIGN.md section 5. Partial-operation table (DESIGN appendix A); objects whose own special methods raise are out of scope as in the property.",
     },
     'C09': {
         'technique': 'abstract evaluation of the opcode/category dispatchers on every constant of the sre universe + constant evaluation of category alphabets + bound entailment for repeat draws + range-coverage of negated classes',
-        'text': "Opcode and category dispatch end in a raise, supported set handled, must-refuse set never handled silently, no handler swallows the refusal, children flow into recursion, repeat bounds ordered, alphabets are subsets of their category. Not decided: full match of composed patterns. Only the parser's open-bound sentinel MAXREPEAT may be replaced by the cap (OPEN-SENTINEL); the validator matches the declared pattern itself, not a string-edited copy (VALIDATOR-PATTERN).",
+        'text': "Opcode and category dispatch end in a raise, supported set handled, must-refuse set never handled silently, no handler swallows the refusal, children flow into recursion, repeat bounds ordered, alphabets are subsets of their category. Not decided: full match of composed patterns. Only the parser's open-bound sentinel MAXREPEAT may be replaced by the cap (OPEN-SENTINEL); the validator matches the declared pattern itself, not a string-edited copy (VALIDATOR-PATTERN). Every sequence a character is drawn from is non-empty (DRAW-NONEMPTY).",
         'note': "Trusted base: the checker's own resolver and abstract interpreter, the frozen idiom tables listed in DESIGN.md appendix A, and Python semantics as stated in DESIGN.md section 5. sre node schema of the analysing interpreter (3.12) read from re._constants as data.",
     },
     'C10': {
         'technique': 'exception-escape analysis + extracted declaration automaton (all states x all method shapes)',
-        'text': "Only DeclarationError escapes any refinement method; redeclaration is rejected in every state; every value-independent constraint is cross-checked against a fixed value with a predicate at least as strong as the validator's. Not decided: value-dependent corners (NaN). Every kind the declaration admits for a fixed value passes the validator's type check (VALCHK-KIND).",
+        'text': "Only DeclarationError escapes any refinement method; redeclaration is rejected in every state; every value-independent constraint is cross-checked against a fixed value with a predicate at least as strong as the validator's. Not decided: value-dependent corners (NaN). Every kind the declaration admits for a fixed value passes the validator's type check (VALCHK-KIND). The validator's own checks of a fixed value are made at declaration (VALCHK-SELF); `schema | x` raises DeclarationError for a non-schema (OPERATORS).",
         'note': "Trusted base: the checker's own resolver and abstract interpreter, the frozen idiom tables listed in DESIGN.md appendix A, and Python semantics as stated in DESIGN.md section 5. ",
     },
     'C11': {
         'technique': 'exhaustive exploration of the declaration automaton extracted from source: all permutations of all refinement sets',
-        'text': 'Whole property on the extracted automaton: for each type, start state and set of <=4 method-shapes every order yields the same abstract outcome (rejected, or same final state/bindings/value predicates).',
+        'text': 'Whole property on the extracted automaton: for each type, start state and set of <=4 method-shapes every order yields the same abstract outcome (rejected, or same final state/bindings/value predicates). Every rejecting transition raises DeclarationError and nothing escapes while the message is built (REJECT-KIND).',
         'note': "Trusted base: the checker's own resolver and abstract interpreter, the frozen idiom tables listed in DESIGN.md appendix A, and Python semantics as stated in DESIGN.md section 5. Lifting from the automaton to runtime rests on the paper argument in DESIGN.md C11 (value predicates depend only on own argument and payload).",
     },
     'C12': {
         'technique': 'exception-escape analysis + Ellipsis typestate on list shapes + non-empty-result analysis',
-        'text': 'Only SubstitutionError escapes substitute and every Substitutor.visit_*; the `...` marker is never dereferenced on any list shape; any() result non-empty; validate-first dominates every return. Every container the substitutor stores is one the declaration accepts (RESULT-DECLARABLE: `...` only first/last in element lists, only as `...: ...` in key tables). Idempotence: necessary conditions only - the pinned payload re-validates against the same value (RE-PIN) and the conversion contract holds (NATIVE-CONTRACT); equality of the second result is not decided.',
+        'text': 'Only SubstitutionError escapes substitute and every Substitutor.visit_*; the `...` marker is never dereferenced on any list shape; any() result non-empty; validate-first dominates every return. Every container the substitutor stores is one the declaration accepts (RESULT-DECLARABLE: `...` only first/last in element lists, only as `...: ...` in key tables). Idempotence: necessary conditions only - the pinned payload re-validates against the same value (RE-PIN) and the conversion contract holds (NATIVE-CONTRACT); equality of the second result is not decided. The entry function it is stated through is nothing but the dispatch to the module-level visitor (VALIDATE-/GENERATE-/SUBSTITUTE-/REPRESENT-ENTRY). The validator the substitutor runs is total (PRE-VALIDATION-TOTAL); the stored key table is what the declaration stores for it.',
         'note': "Trusted base: the checker's own resolver and abstract interpreter, the frozen idiom tables listed in DESIGN.md appendix A, and Python semantics as stated in DESIGN.md section 5. ",
     },
     'C13': {
         'technique': 'def-use forwarding analysis (alias delegation) + table-transformer rules on token tables for +, make_required, flatten',
-        'text': 'Alias delegates to its target with the same value in all four visitors; | is wired to any(self, other); flatten/+/make_required/__getitem__/__iter__ are lossless table transformers. Not decided: the set equalities.',
+        'text': 'Alias delegates to its target with the same value in all four visitors; | is wired to any(self, other); flatten/+/make_required/__getitem__/__iter__ are lossless table transformers. Not decided: the set equalities. The entry function it is stated through is nothing but the dispatch to the module-level visitor (VALIDATE-/GENERATE-/SUBSTITUTE-/REPRESENT-ENTRY).',
         'note': "Trusted base: the checker's own resolver and abstract interpreter, the frozen idiom tables listed in DESIGN.md appendix A, and Python semantics as stated in DESIGN.md section 5. ",
     },
     'C14': {
         'technique': 'three-way kind agreement (ladder arm / declaration guard / validator guard) + exception-escape analysis of from_native',
-        'text': "Each arm's kind equals the declared and validated kind, every arm pins the same value, recursion is lossless and key-preserving, the final arm raises and only ValueError escapes. Ladder order is a note only. The fixed-value comparison is on the value itself, not an image of it.",
+        'text': "Each arm's kind equals the declared and validated kind, every arm pins the same value, recursion is lossless and key-preserving, the final arm raises and only ValueError escapes. Ladder order is a note only. The fixed-value comparison is on the value itself, not an image of it. The entry function it is stated through is nothing but the dispatch to the module-level visitor (VALIDATE-/GENERATE-/SUBSTITUTE-/REPRESENT-ENTRY). Every present member of a container is dispatched to its member schema (MEMBER-VISITED).",
         'note': "Trusted base: the checker's own resolver and abstract interpreter, the frozen idiom tables listed in DESIGN.md appendix A, and Python semantics as stated in DESIGN.md section 5. ",
     },
     'C15': {
         'technique': 'structure rules on Props.__eq__/Schema.__ne__/eq + class-hierarchy check + kind-confusion analysis from the prop-kind table',
-        'text': '== compares the whole registry both ways with no key filtered, != is its negation, class test symmetric, optional eq/hash agree; marker operands reaching the validate fallback are reported with a counterexample.',
+        'text': '== compares the whole registry both ways with no key filtered, != is its negation, class test symmetric, optional eq/hash agree; marker operands reaching the validate fallback are reported with a counterexample. The entry function it is stated through is nothing but the dispatch to the module-level visitor (VALIDATE-/GENERATE-/SUBSTITUTE-/REPRESENT-ENTRY).',
         'note': "Trusted base: the checker's own resolver and abstract interpreter, the frozen idiom tables listed in DESIGN.md appendix A, and Python semantics as stated in DESIGN.md section 5. ",
     },
     'C16': {
         'technique': 'dispatch-chain forwarding analysis: fallback -> visit -> __d42_*__ -> user hook, and only-through-__accept__ member use',
-        'text': "Members are reached only through __accept__ (no class-specific branch); the fallback chain passes the named context (value, path, indent) and agrees on hook names in all four visitors. What the custom hook returns is the visitor's answer: nothing is checked, changed or refused after it (TRANSPARENT).",
+        'text': "Members are reached only through __accept__ (no class-specific branch); the fallback chain passes the named context (value, path, indent) and agrees on hook names in all four visitors. What the custom hook returns is the visitor's answer: nothing is checked, changed or refused after it (TRANSPARENT). CustomSchema's own hooks keep nothing on the instance; a caller-supplied path reaches the user hook unchanged (also when it is the falsy root path).",
         'note': "Trusted base: the checker's own resolver and abstract interpreter, the frozen idiom tables listed in DESIGN.md appendix A, and Python semantics as stated in DESIGN.md section 5. ",
     },
     'C17': {
         'technique': 'entropy-source table over the call-graph closure of generate + order-dependence taint (set -> order-sensitive consumer)',
-        'text': "Whole property modulo CPython's random: all entropy is the seeded module generator, clock/uuid sites only where exempt, no hash-order dependence, no hidden state. A dict filled inside a loop over a set is an order-sensitive consumer; findings are keyed by owner class, normalised set expression and consumer.",
+        'text': "Whole property modulo CPython's random: all entropy is the seeded module generator, clock/uuid sites only where exempt, no hash-order dependence, no hidden state. A dict filled inside a loop over a set is an order-sensitive consumer; findings are keyed by owner class, normalised set expression and consumer. The entry function it is stated through is nothing but the dispatch to the module-level visitor (VALIDATE-/GENERATE-/SUBSTITUTE-/REPRESENT-ENTRY).",
         'note': "Trusted base: the checker's own resolver and abstract interpreter, the frozen idiom tables listed in DESIGN.md appendix A, and Python semantics as stated in DESIGN.md section 5. random.seed determinism of CPython.",
     },
     'C18': {
         'technique': 'abstract interpretation of rollout on a symbolic mapping (one / two symbolic entries): path conditions and abstract result tables compared with the specification of one rollout step',
-        'text': 'Separator threaded to every recursive call/split/join, head/tail/leaf-or-group decision computed in a recognised idiom, optional re-attached on the tail, two keys with one head land in one group, groups recursed (or the path excludes a further separator), leaves stored as received, `...` passes through. The round trip itself is not decided. optional(k).key is k itself (OPTIONAL-KEY-STORED).',
+        'text': 'Separator threaded to every recursive call/split/join, head/tail/leaf-or-group decision computed in a recognised idiom, optional re-attached on the tail, two keys with one head land in one group, groups recursed (or the path excludes a further separator), leaves stored as received, `...` passes through. The round trip itself is not decided. optional(k).key is k itself (OPTIONAL-KEY-STORED). A path that returns the mapping as it came has tested the name of an optional key too (PASS-THROUGH).',
         'note': "Trusted base: the checker's own resolver and abstract interpreter, the frozen idiom tables listed in DESIGN.md appendix A, and Python semantics as stated in DESIGN.md section 5. ",
     },
     'C19': {
         'technique': "static import resolution of every mapping target against /repo's binding tables + abstract interpretation of rewrite_imports (one symbolic statement, one symbolic alias): path conditions at the recording of a replacement, the recorded text as a symbolic string, the spliced value",
-        'text': 'Clause 1 whole: every mapping target resolves to a definition in /repo. Rewriter: name-preserving, only top-level absolute from-imports are recorded, mapped names emitted from their mapping target, unmapped names from their original module, aliases kept, splice keeps prefix/suffix of shared lines (byte offsets, read at application time). Not decided: output validity for all programs.',
+        'text': "Clause 1 whole: every mapping target resolves to a definition in /repo. Rewriter: name-preserving, only top-level absolute from-imports are recorded, mapped names emitted from their mapping target, unmapped names from their original module, aliases kept, splice keeps prefix/suffix of shared lines (byte offsets, read at application time). Not decided: output validity for all programs. The line table is cut at the tokenizer's line ends (LINE-TABLE); `nothing to do` is decided on the parsed module (NOTHING-TO-DO).",
         'note': "Trusted base: the checker's own resolver and abstract interpreter, the frozen idiom tables listed in DESIGN.md appendix A, and Python semantics as stated in DESIGN.md section 5. Python import semantics for absolute from-imports.",
     },
 }
